@@ -346,6 +346,9 @@ func init() {
 				runDefaultsHistory(c, r, &res, nil)
 				return res
 			}
+			if c.Idx%75 == 7 {
+				return runC01SamePrinting(c, r)
+			}
 			s, fam := pickGeneralMix(r)
 			res.Key = s.Key()
 			if usesExotic(s) {
@@ -495,7 +498,33 @@ func init() {
 				res.Skip = "derivable"
 			}
 			reps := tierReps(c.Tier, 3, 8)
-			outs, _ := runScenario(c, s, r, reps, &res, nil)
+			// history, one case in three: the same objects have first served
+			// a call in which every target parameter was supplied directly
+			// (so the target, built ones included, has run once with real
+			// values); the underivable call is refused all the same
+			warm := !cf.fMay.AllOK && r.Intn(3) == 0
+			for _, cv := range s.Convs {
+				if cv.Once {
+					warm = false // a memoized run-once converter legitimately changes what is derivable
+				}
+			}
+			outs, _ := runScenarioX(c, s, r, reps, &res, func(in *Inst) {
+				if !warm {
+					return
+				}
+				args := append([]am.Arg{}, in.ConvArgs...)
+				for i, p := range s.Target.In {
+					conc := concreteFor(p.Type, r)
+					src := Label{Name: p.Name, Type: conc, Sub: p.Sub}
+					if isIface(p.Type) {
+						src.Name = ""
+					}
+					args = append(args, InputArg(src, in.W.FreshInput(90, 600+i, src)))
+				}
+				DoCall(in.W, in.Target.Func, args)
+				res.Evals++
+				res.obs("underivable_calls_after_a_satisfied_call_on_the_same_objects", 1)
+			}, nil)
 			res.obs("family."+fam, 1)
 			if !cf.fMay.AllOK {
 				res.obs("underivable_cases", 1)
